@@ -5,6 +5,44 @@
 #define VH_SHAPE_H
 #include <regex.h>
 
+/* which method does a result string belong to (by leading tag, crypt.5) */
+static int
+method_of (const char *h)
+{
+  static const int order[] = { M_YESCRYPT, M_GOST, M_SCRYPT, M_BCRYPT_B, M_BCRYPT_Y, M_BCRYPT_A, M_BCRYPT_X, M_SHA512, M_SHA256,
+    M_SHA1, M_SUNMD5, M_MD5, M_NT, M_BSDI
+  };
+  for (unsigned i = 0; i < sizeof order / sizeof *order; i++)
+    if (!strncmp (h, vh_methods[order[i]].tag, strlen (vh_methods[order[i]].tag)))
+      return order[i];
+  return strlen (h) > 13 ? M_BIG : M_DES;
+}
+
+/* offset where the hash portion of H starts (crypt.5 formats) */
+static size_t
+hash_off (int m, const char *h)
+{
+  switch (m)
+    {
+    case M_BIG:
+    case M_DES:
+      return 2;
+    case M_BSDI:
+      return 9;
+    case M_BCRYPT_A:
+    case M_BCRYPT_B:
+    case M_BCRYPT_X:
+    case M_BCRYPT_Y:
+      return 29;
+    default:
+      {
+        const char *p = strrchr (h, '$');
+        return p ? (size_t) (p - h) + 1 : strlen (h);
+      }
+    }
+}
+
+
 #define B64 "[./0-9A-Za-z]"
 static const char *const shape_re[M_COUNT] = {
   [M_YESCRYPT] = "^\\$y\\$" B64 "+\\$" B64 "{0,86}\\$" B64 "{43}$",
